@@ -718,9 +718,18 @@ def native_region(g, px0, py0, px1, py1):
     return polygon([g.affine * p for p in pts], g.crs)
 
 
+def _region_geom(owner, px, crs):
+    """the stand-in region as an instance of the (shadow-loaded) Geometry class too: code that dispatches on
+    isinstance(region, Geometry) follows the geometry branch"""
+    cls = type("RegionGeom", (RegionWithImage, repo(GEOM).Geometry), {})
+    r = cls.__new__(cls)
+    RegionWithImage.__init__(r, owner, px, crs)
+    return r
+
+
 def _mk_region(self, px0, py0, px1, py1):
     if symbolic():
-        return RegionWithImage(self, (px0, py0, px1, py1), self.crs)
+        return _region_geom(self, (px0, py0, px1, py1), self.crs)
     return native_region(self, px0, py0, px1, py1)
 
 
@@ -736,7 +745,7 @@ def _mk_bbox_region(self, px0, py0, px1, py1):
     class BoxWithImage(BB):
         @property
         def polygon(self_inner):
-            return RegionWithImage(gbox, (px0, py0, px1, py1), gbox.crs)
+            return _region_geom(gbox, (px0, py0, px1, py1), gbox.crs)
 
         def to_crs(self_inner, crs, *a, **k):
             return self_inner
@@ -762,7 +771,10 @@ contract(
     f"{GBX}:GeoBoxBase.project",
     ["C16"],
     inputs=dict(self=GEOBOX(), g=Custom(lambda nm: None, "region")),
-    returns=lambda self, g: Value(PixImage(repo(GEOM).BoundingBox(*g.px, None))) if isinstance(g, RegionWithImage) and g.owner is self else Custom(lambda nm: (_ for _ in ()).throw(Unsupported("GeoBox.project of an object that is not the stand-in region")), "n/a"),
+    returns=lambda self, g: Value(PixImage(repo(GEOM).BoundingBox(*g.px, None)))
+    if isinstance(g, RegionWithImage) and g.owner is self
+    # any OTHER geometry: nothing is known about its image (an arbitrary box)
+    else Custom(lambda nm: PixImage(repo(GEOM).BoundingBox(*[Real().make(f"{nm}.{k}") for k in ("x0", "y0", "x1", "y1")], None)), "image of an unknown geometry: arbitrary"),
     verify=False,
     trusted_reason="shapely affine transform (+ pyproj when the CRSs differ): assumed to return the region's image in the pixel plane; the stub hands back the ghost image of the stand-in region",
 )
@@ -1523,4 +1535,63 @@ lemma(
     body=_lemma_views_fresh_cache,
     unstub=[f"{GBX}:GeoBox.zoom_out", f"{GBX}:GeoBox.zoom_to", f"{GBX}:GeoBox.__getitem__", f"{GBX}:GeoBox.pad", f"{GBX}:GeoBox.pad_wh", f"{GBX}:GeoBox.flipx", f"{GBX}:GeoBox.flipy", f"{GBX}:GeoBox.translate_pix", f"{GBX}:GeoBox.__mul__", f"{GBX}:GeoBox.__rmul__", f"{GBX}:scaled_down_geobox", f"{GBX}:GeoBox.crop", f"{GBX}:GeoBox.left", f"{GBX}:GeoBox.right", f"{GBX}:GeoBox.top", f"{GBX}:GeoBox.bottom"],
     note="every view-changing operation on a receiver whose footprint is already cached (symbolic grid): state / history independence of the derived object's footprint",
+)
+
+
+# ---- cropping by a region (geometry or BoundingBox in any CRS): the crop covers the part of the region that lies in the image ----------
+
+
+def _lemma_crop_by_region(g, px0, py0, px1, py1, form):
+    region = (_mk_region if form == "geometry" else _mk_bbox_region)(g, px0, py0, px1, py1)
+    shape, A = g.compute_crop(region)
+    W, H = g.shape.x, g.shape.y
+    nx, ny = shape.x, shape.y
+    # the smallest whole-pixel rectangle around the region's pixel image, clipped to the image
+    tx, ty = Max(floor(px0), 0), Max(floor(py0), 0)
+    rx, ry = Min(ceil(px1), W), Min(ceil(py1), H)
+    overlaps = And(px1 > 0, px0 < W, py1 > 0, py0 < H, px0 < px1, py0 < py1)
+    claim(Implies(overlaps, aff_eq(A, g.affine * T_(tx, ty))), "origin: the pixel containing the region's top-left corner (clipped to the image) -- for a BoundingBox region too: its POLYGON is what gets projected")
+    claim(Implies(overlaps, And(nx == rx - tx, ny == ry - ty)), "size: up to the pixel containing the region's bottom-right corner (clipped to the image)")
+    claim(And(nx >= 1, ny >= 1), "at least one pixel")
+
+
+def _crop_region_oracle(args):
+    """native: the real compute_crop against the pixel image of the region's POLYGON computed with the affine package"""
+    import math
+
+    import shapely
+
+    g, form = args["g"], args["form"]
+    region = (_mk_region if form == "geometry" else _mk_bbox_region)(g, args["px0"], args["py0"], args["px1"], args["py1"])
+    poly = region if hasattr(region, "geom") else region.polygon
+    pts = [(~g.affine) * (x, y) for x, y in shapely.get_coordinates(poly.geom).tolist()]
+    px0, px1 = min(p[0] for p in pts), max(p[0] for p in pts)
+    py0, py1 = min(p[1] for p in pts), max(p[1] for p in pts)
+    W, H = g.shape.x, g.shape.y
+    try:
+        shape, A = g.compute_crop(region)
+    except Exception as e:  # pylint: disable=broad-except
+        return [f"no-exception:{type(e).__name__}"]
+    t = (~g.affine) * A
+    tx, ty, nx, ny = t.c, t.f, shape.x, shape.y
+    eps = 1e-6
+    if not (px1 > 0 and px0 < W and py1 > 0 and py0 < H and px0 < px1 and py0 < py1):
+        return []
+    fails = []
+    if not (tx <= max(px0, 0) + eps and tx + nx >= min(px1, W) - eps and ty <= max(py0, 0) + eps and ty + ny >= min(py1, H) - eps):
+        fails.append(f"claim:the crop covers the part of the region's image inside the image (region px [{px0:.2f},{px1:.2f}]x[{py0:.2f},{py1:.2f}], crop origin ({tx:.2f},{ty:.2f}) {nx}x{ny})")
+    if not (max(px0, 0) - tx < 1 + eps and tx + nx - min(px1, W) < 1 + eps and max(py0, 0) - ty < 1 + eps and ty + ny - min(py1, H) < 1 + eps):
+        fails.append("claim:... and exceeds it by less than a pixel per side")
+    return fails
+
+
+lemma(
+    "geobox.crop_by_region",
+    ["C02"],
+    native_oracle=_crop_region_oracle,
+    inputs=dict(g=GEOBOX(), px0=Real(), py0=Real(), px1=Real(), py1=Real(), form=OneOf("geometry", "bbox")),
+    requires=[lambda g, px0, py0, px1, py1: And(px0 <= px1, py0 <= py1, _nondegenerate(g))],
+    body=_lemma_crop_by_region,
+    unstub=[f"{GBX}:GeoBoxBase.compute_crop"],
+    note="gbox[region] for a geometry / BoundingBox region in any CRS, over the same stand-in regions as GeoBox.enclosing (the projection itself assumed)",
 )
